@@ -145,8 +145,14 @@ def run(ctx, res):
         for (toks, runs, kind, info), a, b in zip(cases, m1, i1):
             mt, _, mlog = a.partition(" calls=")
             if mt != b:
-                violate(kind="correspondence", layer="L1", input=repr(toks), model=mt, impl=b, failing_input=False,
-                        note="do_command_substitution of the implementation differs from the model")
+                bad_oracle = False
+                if kind in ("dollar", "bq", "bqtok") and b not in ("PANIC", "CRASH", "NOT-RUN"):
+                    words = [C.dec(y) for x, y in re.findall(r'\("([^"]*)","([^"]*)"\)', b)]
+                    bad_oracle = len(words) < 2 or words[1] != info[0] + strip_nl(runs[0][2]) + info[1]
+                violate(kind="oracle" if bad_oracle else "correspondence", layer="L1", input=repr(toks), model=mt, impl=b,
+                        output=runs[0][2] if runs else None, failing_input=bad_oracle,
+                        note="do_command_substitution of the implementation differs from the model"
+                             + (" and from head ++ output-minus-trailing-newlines ++ tail" if bad_oracle else ""))
                 continue
             ncalls_model = mlog.count('","') + 1 if mlog not in ("[]", "") else 0
             ncalls_impl = sum(os.path.getsize(cnt) for _, cnt, _ in runs if cnt and os.path.exists(cnt))
@@ -201,9 +207,9 @@ def run(ctx, res):
                 else:
                     violate(kind="oracle", layer="L1", input=repr(t), observed="no result within 4 s", failing_input=True,
                             note="a substitution whose inner line does not plan never finishes")
-            elif a == "HANG" or r == "HANG":
-                violate(kind="correspondence", layer="L1", input=repr(t), model=a, impl=r, failing_input=(r == "HANG"),
-                        note="model and implementation disagree about termination")
+            elif r == "HANG":
+                violate(kind="oracle", layer="L1", input=repr(t), model=a, impl=r, failing_input=True,
+                        note="the implementation does not terminate where the model does")
             else:
                 exp = "[" + ",".join('("%s","%s")' % (C.enc(tg), C.enc(s.replace("$(%s)" % bad, ""))) for tg, s in t) + "]"
                 if r == exp:
